@@ -175,6 +175,8 @@ def c17a(ck, prog):
         d = decision.describe_deep(f, op, 6)
         if "hexized_bytes(" in d and re.search(r"index\(|RangeFrom|get_unchecked\(|split_at\(", d) and "position(" in d:
             return ("hex-size",)
+        if re.match(r"^skip_while\((into_iter|iter|copied\(iter)\(.*hexized_bytes\(", d):
+            return ("hex-size",)        # `size_hex.into_iter().skip_while(|b| *b == b'0')`
         r = paths.root_call(f, op, through=THRU)
         if r is not None and r.bb == msg.bb:
             return ("message",)
@@ -212,7 +214,22 @@ def c17a(ck, prog):
         ok = ok and len(uncond) >= 1
         ck.ob(R, "leading-zeros", ok, f.loc(pos[0].sp), "" if ok else "stripping the leading zeros of the size (%s) can find no non-zero digit: the message may be empty" % e, how="position(|b| b != '0'); message.len() >= 1 by an unconditional push")
     else:
-        ck.ob(R, "leading-zeros", False, f.loc(hx.sp), "the hex size is not trimmed by position(..)")
+        # `.skip_while(|b| *b == b'0')`: cannot fail; what remains is non-empty when the message is (size >= 1)
+        sk = [c for c in f.calls() if c.name == "skip_while" and "hexized_bytes" in decision.describe_deep(f, c.args[0], 4)]
+        oks = len(sk) == 1
+        e = "?"
+        if oks:
+            clos = f.origin(sk[0].args[1])
+            cf = prog.fns.get(clos[-1][1][1].get("def")) if clos and clos[-1][0] == "agg" else None
+            e = decision.show(decision.bool_expr(cf)) if cf is not None else "?"
+            oks = re.fullmatch(r"Eq\((deref\()?arg2\)?,const 48\)|!Ne\((deref\()?arg2\)?,const 48\)", e) is not None
+
+            def nonempty_write2(c):
+                v = lit(f, c, 1)
+                return c.name == "push" or (c.name in ("extend_from_slice", "push_str") and (isinstance(v, int) or (isinstance(v, str) and len(v) > 0)))
+            uncond = [c for c in mw if nonempty_write2(c) and f.dominates(c.bb, hx.bb) and not any(fa.kind == "variant" and fa.allowed == {"Some"} and fa.steps and fa.steps[-1][0] == "call" and len(loop_nx) == 1 and fa.steps[-1][1].bb == loop_nx[0].bb for fa in guards.facts_at(f, prog, c.bb))]
+            oks = oks and len(uncond) >= 1
+        ck.ob(R, "leading-zeros", oks, f.loc(sk[0].sp if sk else hx.sp), "" if oks else "the hex size is not trimmed by position(..) / skip_while(== '0') over a never-empty message (%s)" % e, how="skip_while(|b| b == '0'); message.len() >= 1 by an unconditional push")
     # (4) head flushed before the first item; chunk written and flushed per item
     wa = f.calls_to(r"(AsyncWriteExt|WriteExt)::write_all$")
     fl = f.calls_to(r"(AsyncWriteExt|WriteExt)::flush$")
